@@ -968,6 +968,7 @@ func runC17Stateless(c *Ctx) {
 	}
 	doneG := map[*ssa.Function]bool{}
 	nSites := 0
+	sitesOf := map[string][]*ssa.Call{} // filter field -> the calls that hand it to a checking function
 	for _, caller := range p.Funcs {
 		if !strings.HasSuffix(p.unitFile(caller), "/rule_glob.go") {
 			continue
@@ -992,6 +993,7 @@ func runC17Stateless(c *Ctx) {
 				return
 			}
 			nSites++
+			sitesOf[field] = append(sitesOf[field], call)
 			// the validators g applies: called directly, or through a function parameter that this call site fills
 			applied := map[string]bool{}
 			var vcalls []ssa.CallInstruction
@@ -1070,6 +1072,9 @@ func runC17Stateless(c *Ctx) {
 	}
 	if nSites == 0 {
 		c.anchorMissing("a webhook event filter handed to a checking function in rule_glob.go")
+	}
+	if nSites > 0 {
+		c17EveryFilterKind(c, sitesOf)
 	}
 }
 
